@@ -357,18 +357,21 @@ pub open spec fn tdec_post(o: TypeDeclaration, n: TypeDeclaration, ot: GlobalTab
 //@ after "trait TableBuilder"
 : Sized
 //@ open
-    spec fn pre(&self, offset: usize) -> bool;
+    spec fn pre(&self, t: GlobalTable, offset: usize) -> bool;
     spec fn post(o: Self, n: Self, ot: GlobalTable, nt: GlobalTable, offset: usize) -> bool;
 //@ sig fn build
-        requires old(self).pre(offset),
+        requires old(self).pre(*old(table), offset),
         ensures Self::post(*old(self), *final(self), *old(table), *final(table), offset), //# TableBuilder::build::exactly_the_prescribed_declaration_diagnostics_and_entries
 //@end
 pub open spec fn opt_texpr_wf(o: Option<Reference<TypeExpression>>) -> bool { match o { Some(t) => texpr_wf(t.reference), None => true } }
 pub open spec fn opt_name_wf(o: Option<Identifier>) -> bool { match o { Some(n) => n.info.range.end > 0, None => true } }
+pub open spec fn tdec_pre(d: TypeDeclaration, offset: usize) -> bool {
+    opt_name_wf(d.name) && opt_texpr_wf(d.type_expr) && d.info.range.start + offset <= usize::MAX && d.info.range.end + offset <= usize::MAX
+}
 //@extract spl_frontend/src/table/build.rs :: impl TableBuilder for TypeDeclaration
 //@ rewrite eta_expand_variant_ctor ident_to_string string_is_literal
 //@ open
-    open spec fn pre(&self, offset: usize) -> bool { opt_name_wf(self.name) && opt_texpr_wf(self.type_expr) && self.info.range.start + offset <= usize::MAX && self.info.range.end + offset <= usize::MAX }
+    open spec fn pre(&self, t: GlobalTable, offset: usize) -> bool { tdec_pre(*self, offset) }
     open spec fn post(o: Self, n: Self, ot: GlobalTable, nt: GlobalTable, offset: usize) -> bool { tdec_post(o, n, ot, nt, offset) }
 //@ after "if let Some(name) = self.name.as_mut() {"
             let ghost on = *name;
@@ -378,17 +381,377 @@ pub open spec fn opt_name_wf(o: Option<Identifier>) -> bool { match o { Some(n) 
                 assert(on.info.errors@.subrange(0, on.info.errors@.len() as int) =~= on.info.errors@);
                 assert(tail(on.info, on.info) =~= Seq::<SplError>::empty());
             }
-//@ before "return;"
-proof {
+//@ after "BuildErrorMessage::MainIsNotAProcedure.into(),\n                ));"
+
+                proof {
                     assert(name.info.errors@.subrange(0, on.info.errors@.len() as int) =~= on.info.errors@);
                     assert(tail(on.info, name.info) =~= seq![name.info.errors@[on.info.errors@.len() as int]]);
                 }
-                
+
 //@ after "BuildErrorMessage::RedeclarationAsType(s) }));"
                 proof {
                     assert(name.info.errors@.subrange(0, on.info.errors@.len() as int) =~= on.info.errors@);
                     assert(tail(on.info, name.info) =~= seq![name.info.errors@[on.info.errors@.len() as int]]);
                 }
+//@end
+
+// ---------- parameters and local variables of a procedure
+//@extract spl_frontend/src/ast.rs :: impl<T: ToRange> ToRange for Reference<T>
+//@ open
+    open spec fn range_spec(&self) -> Range<usize> { self.reference.range_spec() }
+//@end
+pub open spec fn pdecl_info(p: ParameterDeclaration) -> AstInfo {
+    match p { ParameterDeclaration::Valid { doc, is_ref, name, type_expr, info } => info, ParameterDeclaration::Error(info) => info }
+}
+pub open spec fn vdecl_info(v: VariableDeclaration) -> AstInfo {
+    match v { VariableDeclaration::Valid { doc, name, type_expr, info } => info, VariableDeclaration::Error(info) => info }
+}
+//@extract spl_frontend/src/ast.rs :: derive ToRange :: enum ParameterDeclaration
+//@ open
+    open spec fn range_spec(&self) -> Range<usize> { pdecl_info(*self).range }
+//@end
+//@extract spl_frontend/src/ast.rs :: derive ToRange :: enum VariableDeclaration
+//@ open
+    open spec fn range_spec(&self) -> Range<usize> { vdecl_info(*self).range }
+//@end
+//@extract spl_frontend/src/table.rs :: impl DataType :: fn is_primitive
+//@ ret b
+//@ sig
+        ensures b == (self is Int || self is Bool), //# DataType::is_primitive::int_or_bool
+//@end
+pub open spec fn opt_texpr_post(o: Option<Reference<TypeExpression>>, n: Option<Reference<TypeExpression>>, table: LookupTable) -> bool {
+    match (o, n) {
+        (Some(x), Some(y)) => y.offset == x.offset && texpr_post(x.reference, y.reference, table),
+        (None, None) => true,
+        _ => false,
+    }
+}
+pub open spec fn opt_is_texpr_type(o: Option<Reference<TypeExpression>>, caller: Identifier, table: LookupTable, r: Option<DataType>) -> bool {
+    match o { Some(x) => is_texpr_type(x.reference, Some(caller), table, r), None => r is None }
+}
+/// Parameter rules: a parameter of a non-primitive (array) type that is not `ref` gets exactly one "must be a reference
+/// parameter"; a name already declared in this procedure gets exactly one "redeclaration as parameter" (and the first
+/// declaration stays); both on the name's own token, in this order.
+pub open spec fn param_errs_ok(errs: Seq<SplError>, id: Identifier, must_ref: bool, redecl: bool) -> bool {
+    errs.len() == (if must_ref { 1int } else { 0int }) + (if redecl { 1int } else { 0int })
+    && (must_ref ==> one_on_name(errs.subrange(0, 1), id, 3))
+    && (redecl ==> one_on_name(errs.subrange(errs.len() - 1, errs.len() as int), id, 5))
+}
+pub open spec fn param_post(o: Reference<ParameterDeclaration>, n: Reference<ParameterDeclaration>, gt: GlobalTable, ol: LocalTable, nl: LocalTable, r: Option<VariableEntry>) -> bool {
+    n.offset == o.offset && match (o.reference, n.reference) {
+        (ParameterDeclaration::Error(a), ParameterDeclaration::Error(b)) => a == b && lmap(nl) == lmap(ol) && r is None,
+        (ParameterDeclaration::Valid { doc: da, is_ref: ra, name: na, type_expr: ta, info: ia }, ParameterDeclaration::Valid { doc: db, is_ref: rb, name: nb, type_expr: tb, info: ib }) =>
+            da == db && ra == rb && ia == ib && match (na, nb) {
+                (None, None) => ta == tb && lmap(nl) == lmap(ol) && r is None,
+                (Some(a), Some(b)) => {
+                    &&& b.value == a.value && info_grew(a.info, b.info)
+                    &&& opt_texpr_post(ta, tb, global_lookup(&gt))
+                    &&& r matches Some(e) && e.name == a && e.is_ref == ra && e.range == range_plus(ia.range, o.offset as int)
+                        && opt_is_texpr_type(ta, a, global_lookup(&gt), e.data_type)
+                        && param_errs_ok(tail(a.info, b.info), a, e.data_type is Some && !(e.data_type->0 is Int || e.data_type->0 is Bool) && !ra, lmap(ol).contains_key(a.value@))
+                        && (if lmap(ol).contains_key(a.value@) { lmap(nl) == lmap(ol) } else { lmap(nl) == lmap(ol).insert(a.value@, LocalEntry::Parameter(e)) })
+                },
+                _ => false,
+            },
+        _ => false,
+    }
+}
+pub open spec fn pdecl_wf(p: Reference<ParameterDeclaration>) -> bool {
+    pdecl_info(p.reference).range.start + p.offset <= usize::MAX && pdecl_info(p.reference).range.end + p.offset <= usize::MAX
+    && match p.reference { ParameterDeclaration::Valid { doc, is_ref, name, type_expr, info } => opt_name_wf(name) && opt_texpr_wf(type_expr), _ => true }
+}
+//@extract spl_frontend/src/table/build.rs :: fn build_parameter
+//@ rewrite map_inline eta_expand_variant_ctor ident_to_string
+//@ ret r
+//@ sig
+    requires pdecl_wf(*old(param)),
+    ensures param_post(*old(param), *final(param), *global_table, *old(local_table), *final(local_table), r), //# build_parameter::parameter_rules_and_entry
+//@ before "let documentation = get_documentation(doc);"
+let ghost on = *name;
+            
+//@ before "if let Some(data_type) = &param_entry.data_type {"
+let ghost n0 = *name;
+            
+//@ before "if local_table"
+let ghost n1 = *name;
+            
+//@ before "param_entry\n        }"
+proof {
+                let k0 = on.info.errors@.len() as int;
+                assert(n0.info == on.info);
+                assert(name.info.errors@.subrange(0, k0) =~= on.info.errors@);
+                let t = tail(on.info, name.info);
+                if n1.info.errors@.len() == k0 + 1 {
+                    assert(t.subrange(0, 1) =~= seq![n1.info.errors@[k0]]);
+                    assert(tail(on.info, n1.info) =~= seq![n1.info.errors@[k0]]);
+                }
+                if name.info.errors@.len() == n1.info.errors@.len() + 1 {
+                    assert(t.subrange(t.len() - 1, t.len() as int) =~= seq![name.info.errors@[n1.info.errors@.len() as int]]);
+                }
+            }
+            
+//@end
+
+pub open spec fn local_lookup<'a>(gt: &'a GlobalTable, lt: &'a LocalTable) -> LookupTable<'a> { LookupTable { local_table: Some(lt), global_table: Some(gt) } }
+/// Variable declaration rule: the type is resolved with the procedure's own scope in front of the global one; a name already
+/// declared in this procedure (as parameter or variable) gets exactly one "redeclaration as variable" on its own token and the
+/// first declaration stays; otherwise the variable is entered with its type.
+pub open spec fn var_post(o: Reference<VariableDeclaration>, n: Reference<VariableDeclaration>, gt: GlobalTable, ol: LocalTable, nl: LocalTable) -> bool {
+    n.offset == o.offset && match (o.reference, n.reference) {
+        (VariableDeclaration::Error(a), VariableDeclaration::Error(b)) => a == b && lmap(nl) == lmap(ol),
+        (VariableDeclaration::Valid { doc: da, name: na, type_expr: ta, info: ia }, VariableDeclaration::Valid { doc: db, name: nb, type_expr: tb, info: ib }) =>
+            da == db && ia == ib && match (na, nb) {
+                (None, None) => ta == tb && lmap(nl) == lmap(ol),
+                (Some(a), Some(b)) => {
+                    &&& b.value == a.value && info_grew(a.info, b.info)
+                    &&& opt_texpr_post(ta, tb, local_lookup(&gt, &ol))
+                    &&& if lmap(ol).contains_key(a.value@) { lmap(nl) == lmap(ol) && one_on_name(tail(a.info, b.info), a, 6) }
+                        else {
+                            &&& tail(a.info, b.info).len() == 0
+                            &&& lmap(nl).dom() == lmap(ol).dom().insert(a.value@)
+                            &&& forall|k: Seq<char>| lmap(ol).contains_key(k) ==> lmap(nl)[k] == lmap(ol)[k]
+                            &&& lmap(nl)[a.value@] matches LocalEntry::Variable(e) && e.name == a && !e.is_ref && e.range == range_plus(ia.range, o.offset as int)
+                                && opt_is_texpr_type(ta, a, local_lookup(&gt, &ol), e.data_type)
+                        }
+                },
+                _ => false,
+            },
+        _ => false,
+    }
+}
+pub open spec fn vdecl_wf(v: Reference<VariableDeclaration>) -> bool {
+    vdecl_info(v.reference).range.start + v.offset <= usize::MAX && vdecl_info(v.reference).range.end + v.offset <= usize::MAX
+    && match v.reference { VariableDeclaration::Valid { doc, name, type_expr, info } => opt_name_wf(name) && opt_texpr_wf(type_expr), _ => true }
+}
+//@extract spl_frontend/src/table/build.rs :: fn build_variable
+//@ rewrite eta_expand_variant_ctor ident_to_string
+//@ sig
+    requires vdecl_wf(*old(var)),
+    ensures var_post(*old(var), *final(var), *global_table, *old(local_table), *final(local_table)), //# build_variable::variable_rule_and_entry
+//@ before "let documentation = get_documentation(doc);"
+let ghost on = *name;
+        proof {
+            assert(on.info.errors@.subrange(0, on.info.errors@.len() as int) =~= on.info.errors@);
+            assert(tail(on.info, on.info) =~= Seq::<SplError>::empty());
+        }
+        
+//@ after "BuildErrorMessage::RedeclarationAsVariable(s) }));"
+            proof {
+                assert(name.info.errors@.subrange(0, on.info.errors@.len() as int) =~= on.info.errors@);
+                assert(tail(on.info, name.info) =~= seq![name.info.errors@[on.info.errors@.len() as int]]);
+            }
+//@end
+
+// ---------- procedure declarations
+//@extract spl_frontend/src/ast.rs :: derive ToRange :: struct ProcedureDeclaration
+//@ open
+    open spec fn range_spec(&self) -> Range<usize> { self.info.range }
+//@end
+//~assume derived Default for LocalTable is the empty table
+#[verifier::external_body]
+pub fn local_table_default() -> (r: LocalTable)
+    ensures lmap(r) == Map::<Seq<char>, LocalEntry>::empty(),
+{ LocalTable { entries: HashMap::new() } }   // what #[derive(Default)] produces
+/// the Some results, in order
+pub open spec fn collected(rs: Seq<Option<VariableEntry>>, n: nat) -> Seq<VariableEntry>
+    decreases n
+{
+    if n == 0 || n > rs.len() { Seq::empty() } else { collected(rs, (n - 1) as nat) + (match rs[n - 1] { Some(e) => seq![e], None => Seq::empty() }) }
+}
+/// every parameter went through build_parameter, in order; ms are the local tables in between, rs the per-parameter results
+pub open spec fn params_steps(op: Seq<Reference<ParameterDeclaration>>, np: Seq<Reference<ParameterDeclaration>>, gt: GlobalTable, ms: Seq<LocalTable>, rs: Seq<Option<VariableEntry>>) -> bool {
+    np.len() == op.len() && ms.len() == op.len() + 1 && rs.len() == op.len()
+    && forall|i: int| 0 <= i < op.len() ==> param_post(#[trigger] op[i], np[i], gt, ms[i], ms[i + 1], rs[i])
+}
+pub open spec fn vars_steps(ov: Seq<Reference<VariableDeclaration>>, nv: Seq<Reference<VariableDeclaration>>, gt: GlobalTable, ms: Seq<LocalTable>) -> bool {
+    nv.len() == ov.len() && ms.len() == ov.len() + 1
+    && forall|i: int| 0 <= i < ov.len() ==> var_post(#[trigger] ov[i], nv[i], gt, ms[i], ms[i + 1])
+}
+pub open spec fn wit_p(ms: Seq<LocalTable>, rs: Seq<Option<VariableEntry>>) -> bool { true }
+pub open spec fn wit_v(ms: Seq<LocalTable>) -> bool { true }
+pub open spec fn params_loop_post(op: Seq<Reference<ParameterDeclaration>>, np: Seq<Reference<ParameterDeclaration>>, gt: GlobalTable, ol: LocalTable, nl: LocalTable, out: Seq<VariableEntry>) -> bool {
+    exists|ms: Seq<LocalTable>, rs: Seq<Option<VariableEntry>>| #[trigger] wit_p(ms, rs) && params_steps(op, np, gt, ms, rs)
+        && ms[0] == ol && ms[op.len() as int] == nl && out == collected(rs, rs.len())
+}
+pub open spec fn vars_loop_post(ov: Seq<Reference<VariableDeclaration>>, nv: Seq<Reference<VariableDeclaration>>, gt: GlobalTable, ol: LocalTable, nl: LocalTable) -> bool {
+    exists|ms: Seq<LocalTable>| #[trigger] wit_v(ms) && vars_steps(ov, nv, gt, ms) && ms[0] == ol && ms[ov.len() as int] == nl
+}
+//~assume (R6) `parameters.iter_mut().filter_map(|p| build_parameter(p, ..)).collect()` and `variable_declarations.iter_mut().for_each(|d| build_variable(d, ..))` apply the verified per-element functions to every element in order, threading the local table, and collect the Some results in order
+#[verifier::external_body]
+pub fn build_parameters_loop(params: &mut Vec<Reference<ParameterDeclaration>>, table: &GlobalTable, local_table: &mut LocalTable) -> (out: Vec<VariableEntry>)
+    requires forall|i: int| 0 <= i < old(params)@.len() ==> pdecl_wf(#[trigger] old(params)@[i]),
+    ensures params_loop_post(old(params)@, final(params)@, *table, *old(local_table), *final(local_table), out@),
+{ unimplemented!() }
+#[verifier::external_body]
+pub fn build_variables_loop(vars: &mut Vec<Reference<VariableDeclaration>>, table: &GlobalTable, local_table: &mut LocalTable)
+    requires forall|i: int| 0 <= i < old(vars)@.len() ==> vdecl_wf(#[trigger] old(vars)@[i]),
+    ensures vars_loop_post(old(vars)@, final(vars)@, *table, *old(local_table), *final(local_table)),
+{ unimplemented!() }
+pub open spec fn wit_l(l0: LocalTable, lm: LocalTable, lf: LocalTable, ps: Seq<VariableEntry>) -> bool { true }
+/// Procedure declaration rules: parameters and local variables are declared in order into a fresh local scope (rules above);
+/// the procedure is entered into the global table with that scope and its parameter list, unless the name is already
+/// declared, in which case it gets exactly one "redeclaration as procedure" on the name's own token and the table is unchanged.
+pub open spec fn pdec_mid(o: ProcedureDeclaration, n: ProcedureDeclaration, ot: GlobalTable, nt: GlobalTable, offset: usize, l0: LocalTable, lm: LocalTable, lf: LocalTable, ps: Seq<VariableEntry>) -> bool {
+    &&& lmap(l0) == Map::<Seq<char>, LocalEntry>::empty()
+    &&& params_loop_post(o.parameters@, n.parameters@, ot, l0, lm, ps)
+    &&& vars_loop_post(o.variable_declarations@, n.variable_declarations@, ot, lm, lf)
+    &&& match (o.name, n.name) {
+        (Some(a), Some(b)) => b.value == a.value && info_grew(a.info, b.info) && (
+            if gmap(ot).contains_key(a.value@) { gmap(nt) == gmap(ot) && one_on_name(tail(a.info, b.info), a, 4) }
+            else {
+                &&& tail(a.info, b.info).len() == 0
+                &&& gmap(nt).dom() == gmap(ot).dom().insert(a.value@)
+                &&& forall|k: Seq<char>| gmap(ot).contains_key(k) ==> gmap(nt)[k] == gmap(ot)[k]
+                &&& gmap(nt)[a.value@] matches GlobalEntry::Procedure(e) && e.name == a && e.parameters@ == ps && e.local_table == lf
+                    && e.range == range_plus(o.info.range, offset as int)
+            }),
+        _ => false,
+    }
+}
+pub open spec fn pdec_pre(d: ProcedureDeclaration, offset: usize) -> bool {
+    opt_name_wf(d.name) && d.info.range.start + offset <= usize::MAX && d.info.range.end + offset <= usize::MAX
+    && (d.name is Some ==> d.name->0.info.range.start <= d.name->0.info.range.end && d.name->0.info.range.end + d.info.range.start + offset <= usize::MAX)
+    && (forall|i: int| 0 <= i < d.parameters@.len() ==> pdecl_wf(#[trigger] d.parameters@[i]))
+    && (forall|i: int| 0 <= i < d.variable_declarations@.len() ==> vdecl_wf(#[trigger] d.variable_declarations@[i]))
+}
+pub open spec fn pdec_post(o: ProcedureDeclaration, n: ProcedureDeclaration, ot: GlobalTable, nt: GlobalTable, offset: usize) -> bool {
+    &&& n.info == o.info && n.doc == o.doc && n.statements == o.statements
+    &&& match o.name {
+        None => n == o && gmap(nt) == gmap(ot),
+        Some(_) => exists|l0: LocalTable, lm: LocalTable, lf: LocalTable, ps: Seq<VariableEntry>| #[trigger] wit_l(l0, lm, lf, ps) && pdec_mid(o, n, ot, nt, offset, l0, lm, lf, ps),
+    }
+}
+//@extract spl_frontend/src/table/build.rs :: impl TableBuilder for ProcedureDeclaration
+//@ rewrite build_parameters_loop build_variables_loop local_table_default eta_expand_variant_ctor ident_to_string
+//@ open
+    open spec fn pre(&self, t: GlobalTable, offset: usize) -> bool { pdec_pre(*self, offset) }
+    open spec fn post(o: Self, n: Self, ot: GlobalTable, nt: GlobalTable, offset: usize) -> bool { pdec_post(o, n, ot, nt, offset) }
+//@ after "if let Some(name) = self.name.as_mut() {"
+            let ghost on = *name;
+            proof {
+                assert(on.info.errors@.subrange(0, on.info.errors@.len() as int) =~= on.info.errors@);
+                assert(tail(on.info, on.info) =~= Seq::<SplError>::empty());
+            }
+//@ after "let mut local_table = local_table_default();"
+            let ghost l0 = local_table;
+//@ before "build_variables_loop("
+let ghost lm = local_table;
+            let ghost ps = parameters@;
+            
+//@ before "let entry = ProcedureEntry {"
+let ghost lf = local_table;
+            
+//@ before "\n        }\n    }\n}"
+
+            proof {
+                assert(name.info.errors@.subrange(0, on.info.errors@.len() as int) =~= on.info.errors@);
+                if name.info.errors@.len() == on.info.errors@.len() + 1 {
+                    assert(tail(on.info, name.info) =~= seq![name.info.errors@[on.info.errors@.len() as int]]);
+                }
+                assert(wit_l(l0, lm, lf, ps));
+            }
+//@end
+
+// ---------- global declarations and the program: main rules
+pub open spec fn gdec_post(o: GlobalDeclaration, n: GlobalDeclaration, ot: GlobalTable, nt: GlobalTable, offset: usize) -> bool {
+    match (o, n) {
+        (GlobalDeclaration::Type(a), GlobalDeclaration::Type(b)) => tdec_post(a, b, ot, nt, offset),
+        (GlobalDeclaration::Procedure(a), GlobalDeclaration::Procedure(b)) => pdec_post(a, b, ot, nt, offset),
+        (GlobalDeclaration::Error(a), GlobalDeclaration::Error(b)) => a == b && gmap(nt) == gmap(ot),
+        _ => false,
+    }
+}
+pub open spec fn gdec_pre(g: GlobalDeclaration, offset: usize) -> bool {
+    match g {
+        GlobalDeclaration::Type(t) => tdec_pre(t, offset),
+        GlobalDeclaration::Procedure(p) => pdec_pre(p, offset),
+        GlobalDeclaration::Error(_) => true,
+    }
+}
+//@extract spl_frontend/src/table/build.rs :: impl TableBuilder for GlobalDeclaration
+//@ open
+    open spec fn pre(&self, t: GlobalTable, offset: usize) -> bool { gdec_pre(*self, offset) }
+    open spec fn post(o: Self, n: Self, ot: GlobalTable, nt: GlobalTable, offset: usize) -> bool { gdec_post(o, n, ot, nt, offset) }
+//@end
+pub open spec fn decls_steps(od: Seq<Reference<GlobalDeclaration>>, nd: Seq<Reference<GlobalDeclaration>>, ts: Seq<GlobalTable>, offset: usize) -> bool {
+    nd.len() == od.len() && ts.len() == od.len() + 1
+    && forall|i: int| 0 <= i < od.len() ==> (#[trigger] nd[i]).offset == od[i].offset && gdec_post(od[i].reference, nd[i].reference, ts[i], ts[i + 1], (offset + od[i].offset) as usize)
+}
+pub open spec fn wit_t(ts: Seq<GlobalTable>) -> bool { true }
+pub open spec fn decls_loop_post(od: Seq<Reference<GlobalDeclaration>>, nd: Seq<Reference<GlobalDeclaration>>, ot: GlobalTable, nt: GlobalTable, offset: usize) -> bool {
+    exists|ts: Seq<GlobalTable>| #[trigger] wit_t(ts) && decls_steps(od, nd, ts, offset) && ts[0] == ot && ts[od.len() as int] == nt
+}
+//~assume (R6) the declaration loop of Program::build builds every global declaration in order with `offset + dec.offset`, threading the global table (iter_mut().map().for_each())
+#[verifier::external_body]
+pub fn build_declarations_loop(decls: &mut Vec<Reference<GlobalDeclaration>>, table: &mut GlobalTable, offset: usize)
+    requires forall|i: int| 0 <= i < old(decls)@.len() ==> offset + (#[trigger] old(decls)@[i]).offset <= usize::MAX && gdec_pre(old(decls)@[i].reference, (offset + old(decls)@[i].offset) as usize),
+    ensures decls_loop_post(old(decls)@, final(decls)@, *old(table), *final(table), offset),
+{ unimplemented!() }
+/// no type is ever entered under the name `main` (TypeDeclaration::build refuses it), so `main`, if declared, is a procedure;
+/// and the name of an entered procedure can be displaced by the start of its declaration
+pub open spec fn no_type_main(t: GlobalTable) -> bool {
+    gmap(t).contains_key(main_name()) ==> (gmap(t)[main_name()] matches GlobalEntry::Procedure(p)
+        && p.name.info.range.start <= p.name.info.range.end && p.name.info.range.end + p.range.start <= usize::MAX)
+}
+pub proof fn lemma_main_is_a_procedure(od: Seq<Reference<GlobalDeclaration>>, nd: Seq<Reference<GlobalDeclaration>>, ts: Seq<GlobalTable>, offset: usize, k: int)
+    requires decls_steps(od, nd, ts, offset), no_type_main(ts[0]), 0 <= k <= od.len(),
+        forall|i: int| 0 <= i < od.len() ==> offset + (#[trigger] od[i]).offset <= usize::MAX && gdec_pre(od[i].reference, (offset + od[i].offset) as usize),
+    ensures no_type_main(ts[k]), //# lemma_main_is_a_procedure
+    decreases k
+{
+    if k > 0 {
+        lemma_main_is_a_procedure(od, nd, ts, offset, k - 1);
+        assert(gdec_post(od[k - 1].reference, nd[k - 1].reference, ts[k - 1], ts[k], (offset + od[k - 1].offset) as usize));
+        assert(gdec_pre(od[k - 1].reference, (offset + od[k - 1].offset) as usize));
+    }
+}
+pub open spec fn is_main_msg(m: ErrorMessage, missing: bool) -> bool {
+    m matches ErrorMessage::BuildErrorMessage(bm) && (if missing { bm is MainIsMissing } else { bm is MainMustNotHaveParameters })
+}
+/// Main-procedure rules: a program without `main` gets exactly one "procedure main is missing" (at the very start); a `main`
+/// with parameters gets exactly one "must not have any parameters" on the name of that declaration; otherwise nothing.
+pub open spec fn main_rule_ok(t: GlobalTable, errs: Seq<SplError>) -> bool {
+    if !gmap(t).contains_key(main_name()) { errs.len() == 1 && errs[0].0 == (0usize..0usize) && is_main_msg(errs[0].1, true) }
+    else { match gmap(t)[main_name()] {
+        GlobalEntry::Procedure(p) => if p.parameters@.len() > 0 {
+                errs.len() == 1 && errs[0].0 == range_plus(p.name.info.range, p.range.start as int) && is_main_msg(errs[0].1, false)
+            } else { errs.len() == 0 },
+        GlobalEntry::Type(_) => false,
+    } }
+}
+pub open spec fn prog_post(o: Program, n: Program, ot: GlobalTable, nt: GlobalTable, offset: usize) -> bool {
+    decls_loop_post(o.global_declarations@, n.global_declarations@, ot, nt, offset) && info_grew(o.info, n.info) && main_rule_ok(nt, tail(o.info, n.info))
+}
+//@extract spl_frontend/src/table/build.rs :: impl TableBuilder for Program
+//@ rewrite build_declarations_loop drop_lookup_as_ref
+//@ open
+    open spec fn pre(&self, t: GlobalTable, offset: usize) -> bool {
+        no_type_main(t)
+        && forall|i: int| 0 <= i < self.global_declarations@.len() ==> offset + (#[trigger] self.global_declarations@[i]).offset <= usize::MAX
+            && gdec_pre(self.global_declarations@[i].reference, (offset + self.global_declarations@[i].offset) as usize)
+    }
+    open spec fn post(o: Self, n: Self, ot: GlobalTable, nt: GlobalTable, offset: usize) -> bool { prog_post(o, n, ot, nt, offset) }
+//@ after "build_declarations_loop(&mut self.global_declarations, table, offset);"
+        proof {
+            let od = old(self).global_declarations@;
+            let nd = self.global_declarations@;
+            let ts = choose|ts: Seq<GlobalTable>| #[trigger] wit_t(ts) && decls_steps(od, nd, ts, offset) && ts[0] == *old(table) && ts[od.len() as int] == *table;
+            lemma_main_is_a_procedure(od, nd, ts, offset, od.len() as int);
+            reveal_strlit("main");
+            assert("main"@ =~= main_name());
+            let oi = old(self).info;
+            assert(oi.errors@.subrange(0, oi.errors@.len() as int) =~= oi.errors@);
+            assert(tail(oi, oi) =~= Seq::<SplError>::empty());
+        }
+//@ at_end fn build
+proof {
+            let oi = old(self).info;
+            assert(self.info.errors@.subrange(0, oi.errors@.len() as int) =~= oi.errors@);
+            if self.info.errors@.len() == oi.errors@.len() + 1 {
+                assert(tail(oi, self.info) =~= seq![self.info.errors@[oi.errors@.len() as int]]);
+            }
+        }
+    
 //@end
 }
 fn main() {}
